@@ -22,7 +22,7 @@ _re_sim = re.compile(r'The number of states generated: (\d+)')
 
 
 def _java(extra_jvm=()):
-    return ['java', '-XX:+UseParallelGC', '-Xss16m', *extra_jvm, '-cp', JAR]
+    return ['java', '-XX:+UseParallelGC', '-Xss16m', f'-DTLA-Library={SPECS / "common"}', *extra_jvm, '-cp', JAR]
 
 
 def run(
